@@ -734,6 +734,8 @@ class Dispatch:
                    for c in classes)
 
     def cond(self, n: ast.expr, env: dict) -> bool:
+        if isinstance(n, ast.UnaryOp) and isinstance(n.op, ast.Not):
+            return not self.cond(n.operand, env)
         if isinstance(n, ast.BoolOp):
             vals = [self.cond(v, env) for v in n.values]
             return any(vals) if isinstance(n.op, ast.Or) else all(vals)
@@ -760,6 +762,8 @@ class Dispatch:
             self.err(n, 'unknown name')
         if isinstance(n, ast.BinOp) and isinstance(n.op, ast.MatMult):
             return self.binop('matmul', self.obj(n.left, env), self.obj(n.right, env), n)
+        if isinstance(n, ast.IfExp):        # `a if isinstance(..) else b`: the classes are concrete, so the test is decided
+            return self.ev(n.body if self.cond(n.test, env) else n.orelse, env)
         if isinstance(n, ast.Call):
             f = n.func
             if n.keywords:
@@ -780,6 +784,17 @@ class Dispatch:
                     if not (srcs[0] is srcs[1] is srcs[2]) or KIND.get(srcs[0].cls) != 'V' or srcs[0].cls == 'tuple':
                         self.err(n, 'vector constructor arguments are not the x,y,z of one vector')
                     return self.fresh(c, srcs[0].val)          # three floats: always a new object
+                if c in ('Angle', 'FrozenAngle') and len(n.args) == 3:
+                    # Angle(a._pitch, a._yaw, a._roll) of ONE angle: a new object with the same value (the constructor's
+                    # `% 360` leaves the already normalised components of an angle alone)
+                    srcs = []
+                    for a, fld in zip(n.args, ANG_FIELDS):
+                        if not (isinstance(a, ast.Attribute) and _fld(a.attr) == fld):
+                            self.err(n, 'angle constructor arguments are not the pitch,yaw,roll of one angle')
+                        srcs.append(self.obj(a.value, env))
+                    if not (srcs[0] is srcs[1] is srcs[2]) or KIND.get(srcs[0].cls) != 'A':
+                        self.err(n, 'angle constructor arguments are not the pitch,yaw,roll of one angle')
+                    return self.fresh(c, srcs[0].val)
                 if c == 'Vec' and len(n.args) == 1:
                     src = self.obj(n.args[0], env)
                     if KIND.get(src.cls) != 'V':
@@ -807,6 +822,9 @@ class Dispatch:
                     how, k = classify_copy(self.C, self.F, recv.cls, m)
                     self.trace.append(f'{recv.cls}.{m}:{how}')
                     return recv if how == 'alias' else self.fresh(k, recv.val)
+                if m == 'copy' and not n.args and KIND.get(recv.cls) in ('V', 'A') and recv.cls != 'tuple':
+                    # Vec.copy() / Angle.copy(): a new object; FrozenVec.copy() / FrozenAngle.copy(): `return self` (executed)
+                    return self.call(recv, m, [], n)
                 if m == '_to_angle' and len(n.args) == 1 and KIND.get(recv.cls) == 'M':
                     tgt = self.obj(n.args[0], env)
                     if KIND.get(tgt.cls) != 'A':
@@ -853,6 +871,9 @@ class Dispatch:
                         recv.val = ('MatMulSelf', recv.val)
                     else:
                         recv.val = ('MatMul', recv.val, arg.val)
+            elif isinstance(s, ast.Expr) and isinstance(s.value, ast.Call) and isinstance(s.value.func, ast.Attribute) \
+                    and s.value.func.attr == '_to_angle' and len(s.value.args) == 1:
+                self.ev(s.value, env)          # `m._to_angle(a)` as a statement: stores into a (the result is a itself)
             elif isinstance(s, ast.Return) and s.value is not None:
                 return self.ev(s.value, env)
             else:
